@@ -95,6 +95,13 @@ def _case(draw, tier):
     mesh = draw(meshgen.any_mesh(max_pts=30 if big else 14, partial=True, tiny=True, polar=True))
     mesh.pop("centers", None)
     steps = draw(st.lists(_step(), min_size=1, max_size=5))
+    if draw(st.integers(0, 3)) == 0:
+        # planted return trip: the same tree asked for kind A, then B, then A again without reconstruction, the last
+        # query with k = every element of A (a count remembered from B would refuse or truncate it)
+        a = dict(steps[0], reconstruct=False, via_setter=None)
+        b = dict(a, kind=draw(sampled_from([k_ for k_ in KINDS if k_ != a["kind"]])))
+        a2 = dict(a, query="knn", k_mode=draw(sampled_from(["max", "max", "max-1"])), return_distance=True)
+        steps = [a, b, a2] + steps[1:3]
     return {"mesh": mesh, "steps": steps, "radius": draw(sampled_from([None, None, None, 2.5, 6371229.0]))}
 
 
